@@ -230,6 +230,10 @@ HllArray<A>* HllArray<A>::newHll(std::istream& is, const A& allocator) {
         throw std::invalid_argument("HLL_4 array refers to an aux map, but aux count is zero");
       }
     }
+    if (!comapctFlag) {
+      // the updatable image reserves an (empty) aux array after the registers: consume it so that the stream ends up after the image
+      is.ignore(4 << hll_constants::LG_AUX_ARR_INTS[lgK]);
+    }
   }
 
   if (!is.good())
